@@ -279,9 +279,14 @@ func (ecd Encoder) EmbedScale(values IntegerSlice, scaleUp bool, metadata *rlwe.
 
 			levelP := p.P.Level()
 
-			ecd.RingT2Q(levelP, scaleUp, pT, p.P)
-
 			ringP := ecd.parameters.RingP().AtLevel(levelP)
+
+			// Same integer polynomial as in p.Q: values * (PlaintextModulus^{-1} mod Q[levelQ]), reduced modulo P
+			ecd.RingT2Q(levelP, false, pT, p.P)
+
+			if scaleUp {
+				ringP.MulScalarBigint(p.P, ecd.tInvModQ[levelQ], p.P)
+			}
 
 			if metadata.IsNTT {
 				ringP.NTT(p.P, p.P)
